@@ -17,11 +17,11 @@ OUTSIDE = ["larger trees", "words outside the alphabet"]
 NAMES = ["punctuation_verylow", "punctuation_root", "punctuation_symetrify"]
 
 
-def punct(m, n, t, nw, relc, rp, **kw):
+def punct(m, n, t, nw, relc, rp, same=False, **kw):
     ip, lp = e1_get(kw, m, n)
     words = [WORDS[kw["w%d" % j] % nw] for j in range(1, n + 1)]
     pos = ["REL" if (relc and rp == j) else "P%d" % j for j in range(1, n + 1)]
-    nodes, leaves = build_e1(m, n, ip, lp, words=words, pos=pos)
+    nodes, leaves = build_e1(m, n, ip, lp, words=words, pos=pos, labels=(["S"] * m if same else None))
     allx = nodes + leaves
     par0 = [x.parent for x in allx]
     data0 = [(x.data.get('label'), x.data.get('word'), x.data.get('num')) for x in allx]
@@ -83,6 +83,11 @@ def conds(tier):
         cs.append(Cond("punct-m%d-n%d" % (m, n), "harness.c13:punct", e1_params(m, n) + ws + [P("t", "int", 0, 3)],
                        fixed={"m": m, "n": n, "nw": nw, "relc": False, "rp": 0}, pre=[e1_wf_expr(m, n)], shard=sh,
                        timeout=600 if q else 3000, functions=FUNCS, note="words from %r" % WORDS[:nw]))
+    for (m, n, nw) in ([(2, 2, 3), (2, 3, 2)] if q else [(2, 3, 3), (3, 3, 2)]):
+        ws = [P("w%d" % j, "int", 0, nw) for j in range(1, n + 1)]
+        cs.append(Cond("samelabel-m%d-n%d" % (m, n), "harness.c13:punct", e1_params(m, n) + ws + [P("t", "int", 0, 3)],
+                       fixed={"m": m, "n": n, "nw": nw, "relc": False, "rp": 0, "same": True}, pre=[e1_wf_expr(m, n)], shard=["t"],
+                       timeout=600 if q else 3000, functions=FUNCS, note="every constituent carries the root's label"))
     for (m, n, nw) in ([(2, 3, 3)] if q else [(2, 3, 4), (3, 3, 3), (2, 4, 3)]):
         ws = [P("w%d" % j, "int", 0, nw) for j in range(1, n + 1)]
         cs.append(Cond("relc-m%d-n%d" % (m, n), "harness.c13:punct", e1_params(m, n) + ws + [P("rp", "int", 2, n + 1)],
